@@ -808,7 +808,8 @@ def run(ctx):
         ctx.violation({"kind": "harness-build-failed"}, {"error": err}, no_input=True)
         return
     drv = C.driver_path("drv_c14")
-    sandbox = b"/tmp/c14.%08xA" % ctx.rng.below(2**32)
+    # the process id keeps concurrent runs (bin/seedrun copies share /tmp) out of each other's sandbox
+    sandbox = b"/tmp/c14.%08x.%dA" % (ctx.rng.below(2**32), os.getpid())
     g = Gen(ctx, sandbox)
     metas = [("init " + H(sandbox), "init", (), None, None)]
     # OpenOptions table: all 64 combinations
